@@ -171,3 +171,11 @@ func TryDialInProc(addr lime.InProcessAddr, buf int) (lime.Transport, bool) {
 	}
 	return nil, false
 }
+
+// Str2 is a map lookup that tolerates a nil map.
+func Str2(m map[string]string, k string) string {
+	if m == nil {
+		return ""
+	}
+	return m[k]
+}
